@@ -113,6 +113,11 @@ def judge(case, obs):
     if obs.get('driver_hang') or obs.get('driver_error'):
         return ('harness', obs.get('driver_hang') or obs.get('driver_error'))
     if obs.get('ctor') != 'ok':
+        ev0 = (case.get('events') or [None])[0]
+        if ev0 and ev0['action'] in ('sigkill', 'sigterm') and str(obs.get('ctor')).startswith('RAISES:'):
+            # the child was killed while the parent's constructor was still waiting for the hand-over of its identity (the server
+            # saw the death first): a constructor which raises is a correct answer (C20), there is no worker to judge
+            return ('killed-before-the-constructor-returned', None)
         return ('constructor-' + str(obs.get('ctor')), None)
     if obs.get('not_reached'):
         return ('beyond-end', None)
@@ -219,6 +224,9 @@ def run(ctx):
             continue
         if v[0] == 'beyond-end':
             ctx.extra['landing_beyond_end_of_path'] = ctx.extra.get('landing_beyond_end_of_path', 0) + 1
+            continue
+        if v[0] == 'killed-before-the-constructor-returned':
+            ctx.extra[v[0]] = ctx.extra.get(v[0], 0) + 1
             continue
         if v[0] == 'not-dead':
             ctx.extra.setdefault('death_not_observed_not_judged', []).append({'kind': case['kind'], 'target': case['target'], 'observe': case.get('observe'), 'got': v[1]})
